@@ -136,6 +136,37 @@ Section Value.
   Definition ham_ref (L : nat) : R :=
     radd (rsum (map (fun i => rmul (rmul (pw i) (h1 i)) (pw (L - S i))) (seq 0 L)))
          (rsum (map (fun i => rmul (rmul (pw i) (h2 i)) (pw (L - S (S i)))) (seq 0 (L - 1)))).
+
+  (* cyclic=True: the first tensor is tensor_L_cyclic, every other one the full array, and the bond leaving
+     the last site re-enters the first: the value is the trace
+         sum_b  HLc[b, :] . W_1 ... W_{L-2} . H_{L-1}[:, b]                                   *)
+  Fixpoint zipcons (xs : list R) (cols : list (list R)) : list (list R) :=
+    match xs, cols with
+    | x :: xs', c :: cols' => (x :: c) :: zipcons xs' cols'
+    | _, _ => []
+    end.
+  Fixpoint columns (W : list (list R)) : list (list R) :=
+    match W with
+    | [] => []
+    | [row] => map (fun x => [x]) row
+    | row :: W' => zipcons row (columns W')
+    end.
+  Fixpoint mid_apply (n i : nat) (w : list R) : list R :=      (* W_i . W_{i+1} ... W_{i+n-1} . w *)
+    match n with
+    | O => w
+    | S n' => matvec (siteT i) (mid_apply n' (S i) w)
+    end.
+  Definition mpo_value_cyclic (L : nat) : option R :=
+    match L with
+    | S (S n) =>
+        Some (rsum (map (fun rc => dot (fst rc) (mid_apply n 1 (snd rc)))
+                        (combine (tensor_L_cyclic R r0 (siteT 0)) (columns (siteT (S n))))))
+    | _ => None
+    end.
+  (* the periodic bond (L-1, 0) carries the default terms: A on site L-1, B on site 0 *)
+  Definition ham_ref_cyclic (L : nat) : R :=
+    radd (ham_ref L)
+         (rsum (map (fun t => rmul (snd t) (rmul (pw (L - 2)) (rmul (fst (fst t)) (snd (fst t))))) two)).
 End Value.
 
 (* ------------------------------------------------------------------------ *)
